@@ -11,7 +11,7 @@ import (
 // write-side faults.
 
 func init() {
-	register(&PropDef{ID: "C10", Num: 10, Gen: genC10, Oracle: oracleC10, Level: "fault_enumeration"})
+	register(&PropDef{ID: "C10", Num: 10, Gen: genC10, Oracle: oracleC10, Level: "fault_enumeration", Sweep: sweepC10, SweepN: 120})
 }
 
 var writeFaultKinds = []int{fErr, fTimeout, fShort, fShortTimeout}
@@ -449,4 +449,25 @@ func checkDeadlines(run *Run, e *RealEnd, tv *TapView) {
 			}
 		}
 	}
+}
+
+// sweepC10: one write program per 120 runs; run k injects fault kind k mod 4
+// at write-side transport operation k / 4 (0..29) after the handshake.
+func sweepC10(r *PRNG, k, S int) *Scenario {
+	var scn *Scenario
+	for {
+		scn = genC10(r, "thorough")
+		if scn.Class == "write-fault" {
+			break
+		}
+	}
+	scn.Class = "write-fault-sweep"
+	cc := &scn.Net.Conns[0]
+	f := OpFault{Side: "w", AfterHead: true, K: k / 4, Kind: writeFaultKinds[k%4], N: []int{0, 1, 5, 14, 100}[(k/4)%5]}
+	if len(cc.FaultsA) > 0 {
+		cc.FaultsA = []OpFault{f}
+	} else {
+		cc.FaultsB = []OpFault{f}
+	}
+	return scn
 }
